@@ -39,7 +39,7 @@ WEIGHTS = {
             "size": 2, "abort_size": 2, "abort_sim": 2, "regen": 1, "report": 1, "tick": 1, "rebuild": 2, "pristine": 0.6, "reconf": 3,
             "ghe_new": 1.5, "poke": 1.5, "other_leap": 0.5},
     "C12": {"find": 1, "redesign": 1, "abort_find": 1, "other": 1.5, "nominal": 1, "sim": 3, "size": 2, "abort_size": 1, "regen": 1,
-            "report": 4, "tick": 1, "rebuild": 0, "poke": 2, "abort_sim": 1, "deferred_report": 1.5},
+            "report": 4, "tick": 1, "rebuild": 0, "poke": 2, "abort_sim": 1, "deferred_report": 1.5, "late_setter": 1.5},
     "C19": {"find": 1, "redesign": 1, "sim": 2, "sim_hourly": 1, "size": 1, "regen": 1, "report": 5, "tick": 2, "rebuild": 0, "other": 1.5,
             "poke": 1.5, "other_leap": 0.7, "deferred_report": 2},
     "C01": {"find": 2, "redesign": 2, "abort_find": 2, "other": 1.5, "nominal": 2, "rebuild": 2, "tick": 0, "reconf": 3},
@@ -87,11 +87,12 @@ def draw_plan(rng: random.Random, prop: str, tier: str = "quick", methods=None, 
     for _ in range(n_ops):
         k = rng.choices(kinds, weights)[0]
         if k == "sim":
-            ops.append({"op": "sim", "mgr": "A", "method": "HYBRID", "H": gen.r3(rng.uniform(lo, hi))})
+            ops.append({"op": "sim", "mgr": "A", "method": "HYBRID", "H": "current" if rng.random() < 0.3 else gen.r3(rng.uniform(lo, hi))})
         elif k == "sim_hourly":
             if not hourly_ok:
                 continue
-            ops.append({"op": "sim", "mgr": "A", "method": "HOURLY", "H": gen.r3(rng.uniform(lo, hi))})
+            # ("current": at the height the object already has, e.g. the sized one - the other method at the *same* height)
+            ops.append({"op": "sim", "mgr": "A", "method": "HOURLY", "H": "current" if rng.random() < 0.5 else gen.r3(rng.uniform(lo, hi))})
         elif k == "sim_out":
             h = rng.choice([lo * rng.uniform(0.78, 0.97), hi * rng.uniform(1.03, 1.25)])
             ops.append({"op": "sim", "mgr": "A", "method": "HYBRID", "H": gen.r3(h), "out_of_window": True})
@@ -108,6 +109,11 @@ def draw_plan(rng: random.Random, prop: str, tier: str = "quick", methods=None, 
             hh = gen.r3(rng.uniform(lo, hi))
             ops.append({"op": "abort_sim", "mgr": "A", "method": "HYBRID", "H": hh, "k": rng.randint(1, 900)})
             ops.append({"op": "sim", "mgr": "A", "method": "HYBRID", "H": hh})
+        elif k == "late_setter":
+            # set_simulation_parameters (other limits) *after* set_design, then search and report without a new set_design
+            ops.append({"op": "late_setter", "mgr": "A"})
+            ops.append({"op": "find", "mgr": "A"})
+            ops.append({"op": "report", "mgr": "A", "dir": f"r{len(ops)}", "suffix": ""})
         elif k == "deferred_report":
             ops.append({"op": "deferred_report", "mgr": "A", "dir": f"d{len(ops)}", "move_on": rng.choice(["reconf", "reconf", "sim", "nominal"])})
         elif k == "poke":
@@ -797,6 +803,7 @@ def op_reconf(ctx: Ctx, i, op):
         raise DegeneratePlan(str(e))
     st["cfg"] = target
     st.pop("nominal_override", None)
+    st.pop("late_setter", None)
     ctx.bump("probe:manager_reconfigured_between_finds")
     for c in changed:
         ctx.bump(f"reconf_section:{c}")
@@ -932,6 +939,9 @@ def op_sim(ctx: Ctx, i, op):
         ctx.log.add("sim", op, "skipped")
         return
     cfg = _obj_cfg(ctx, name)
+    if op["H"] == "current":
+        op = dict(op, H=float(g.bhe.b.H))
+        ctx.bump("probe:sim_at_the_height_already_on_the_object")
     n_before = len(g.times)
     kind_before = "empty" if n_before == 0 else ("hourly" if n_before >= 8760 else "hybrid")
     table_built = len(g.gFunction.interpolation_table) > 0
@@ -1086,6 +1096,24 @@ def op_poke(ctx: Ctx, i, op):
             gen._call_setter(mgr, op["setter"], cfg, gen._LOADS_CACHE)
     ctx.bump("probe:setter_called_again_after_search")
     ctx.log.add("poke", op["setter"], None)
+
+
+def op_late_setter(ctx: Ctx, i, op):
+    """A setter called after set_design with *different* values and no new set_design: the design keeps the objects it
+    snapshotted, so the call is ignored by the search; whatever the summary then prints must still be self-consistent."""
+    name = op["mgr"]
+    mgr = ctx.mgrs.get(name)
+    st = ctx.state.get(name)
+    if mgr is None or st is None:
+        return
+    sim = dict(st["cfg"]["simulation"])
+    sim["max_eft"] = gen.r3(sim["max_eft"] - 3.0)
+    sim["min_eft"] = gen.r3(sim["min_eft"] + 2.0)
+    with Quiet():
+        mgr.set_simulation_parameters(**sim)
+    st["late_setter"] = True
+    ctx.bump("probe:setter_called_with_other_values_after_set_design")
+    ctx.log.add("late_setter", [sim["max_eft"], sim["min_eft"]], None)
 
 
 def op_other_leap(ctx: Ctx, i, op):
@@ -1472,12 +1500,19 @@ def _oracle_c12(ctx: Ctx, i, mgr, cfg, f, oc):
         ctx.violation(Violation("C12", "reported_height_not_live_height", f"{h!r} vs {g.bhe.b.H!r}", site="height"), i, feats)
     # search log rows
     sim = cfg["simulation"]
+    late = bool(ctx.state.get("A", {}).get("late_setter"))
+    lim_hi = summ["simulation_parameters"]["maximum_allowable_hp_eft"]["value"]
+    lim_lo = summ["simulation_parameters"]["minimum_allowable_hp_eft"]["value"]
+    if not late and (lim_hi != sim["max_eft"] or lim_lo != sim["min_eft"]):
+        ctx.violation(Violation("C12", "reported_limits_not_the_configured_ones", f"summary prints {lim_hi}/{lim_lo}, configured "
+                                                                                  f"{sim['max_eft']}/{sim['min_eft']}", site="limits"), i, feats)
     for row in summ["design_selection_search_log"]["data"]:
         _, exc_t, mx, mn = row
-        want = max(mx - sim["max_eft"], sim["min_eft"] - mn)
+        # self-consistency: against the limits the same summary prints
+        want = max(mx - lim_hi, lim_lo - mn)
         if abs(exc_t - want) > 1e-12 * max(1.0, abs(want)):
-            ctx.violation(Violation("C12", "search_log_row_inconsistent", f"row {row}: excess {exc_t!r} != {want!r}",
-                                    site="search_log"), i, feats)
+            ctx.violation(Violation("C12", "search_log_row_inconsistent", f"row {row}: excess {exc_t!r} != {want!r} for the printed "
+                                                                          f"limits {lim_hi}/{lim_lo}", site="search_log"), i, feats)
             break
     ctx.bump("search_log_rows_checked", len(summ["design_selection_search_log"]["data"]))
     # reported temperatures vs re-simulation of the same returned object at the reported height
@@ -1705,7 +1740,7 @@ def op_twin(ctx: Ctx, i, op):
 
 
 OPS = {"build": op_build, "find": op_find, "redesign": op_redesign, "nominal": op_nominal, "abort_find": op_abort_find,
-       "other": op_other, "sim": op_sim, "size": op_size, "abort_size": op_abort_size, "pristine": op_pristine, "reconf": op_reconf, "ghe_new": op_ghe_new, "abort_sim": op_abort_sim, "poke": op_poke, "other_leap": op_other_leap, "pristine_resim": op_pristine_resim, "deferred_report": op_deferred_report, "regen": op_regen, "tick": op_tick, "report": op_report,
+       "other": op_other, "sim": op_sim, "size": op_size, "abort_size": op_abort_size, "pristine": op_pristine, "reconf": op_reconf, "ghe_new": op_ghe_new, "abort_sim": op_abort_sim, "poke": op_poke, "other_leap": op_other_leap, "pristine_resim": op_pristine_resim, "deferred_report": op_deferred_report, "late_setter": op_late_setter, "regen": op_regen, "tick": op_tick, "report": op_report,
        "twin": op_twin}
 
 
